@@ -30,7 +30,7 @@ def child_calls(f, p):
 def check(ctx):
     F = ctx.facts("prod")
     ctx.clause("R-TABLE/R-GUARD child-execution conditions of Seq, Par, Match, MisMatch, FoldScalar, Next, Never")
-    ctx.clause("R-PAIR scoping: fold start/end + iterable set/remove, next before/after, new prolog/epilog")
+    ctx.clause("R-PAIR scoping: fold start/end + iterable set/remove, next before/after, iterator advance/restore (error path included), new prolog/epilog")
     ctx.clause("R-TABLE joinable!: only is_joinable() errors become Ok with the subgraph marked incomplete")
 
     # what seq's completeness test relies on: a call that ends without a result marks the subgraph incomplete
@@ -174,6 +174,13 @@ def check(ctx):
         ok2 = len(before) == 1 and len(after) == 1 and nx.must_pass(head[0].target, [after[0].bb])
         ctx.require(ok2, "R-PAIR", "next:before-after", "meet_next_before / meet_next_after around the recursive call on every path (the result is checked after)", "Next::execute scoping around the body changed")
         ctx.require(lib.err_propagates(nx, head[0]) or any(s_[0] == "call" and s_[3] is head[0] for s_ in walk(np_.local(0))), "R-MUST", "next:body-error", "body error propagated", "Next swallows the body's error")
+        # the iterator advanced for the nested iteration is moved back on EVERY way out of it — also when the nested
+        # iteration failed: an xor of THIS iteration that catches the failure must see this iteration's element
+        back = [c for c in nx.calls if c.path.endswith("Iterable<'ctx>>::prev") or (c.path.endswith("::prev") and "Iterable" in c.path)]
+        ok3 = len(back) >= 1 and nx.must_pass(head[0].target, [c.bb for c in back])
+        ctx.require(ok3, "R-PAIR", "next:advance-restored", "iterable.next() is undone by iterable.prev() on every path after the nested iteration, error path included",
+                    "Next::execute can leave after the nested iteration (through the `?` on its result) without moving the iterator back: an xor in the enclosing iteration that catches "
+                    "the failure then runs with the iterator still on the later element and issues calls with arguments the sequential reading never produces")
     # Never
     nv = exe(F, "::Never")
     ok = len(nv.calls_to("ExecutionCtx::make_subgraph_incomplete")) == 1 and all(nv.dominates(nv.calls_to("ExecutionCtx::make_subgraph_incomplete")[0].bb, r) for r in nv.returns)
